@@ -165,7 +165,8 @@ def apply_renaming(p, mapping):
 
 @composite
 def case(d):
-    k = d.int(0, 9)
+    k = d.int(0, 11)
+    k = {10: 0, 11: 3}.get(k, k)
     if k == 0:    # a badly named global (the naming rules are where identifier spelling matters most)
         p = family.member_of(d, violating=1.0, ftype="c", opts={"force": ("global",)}, only=("D12",))
     elif k == 2:  # an operator glued to a parenthesised identifier (is it a cast? that must not depend on how the name is spelled)
